@@ -87,56 +87,80 @@ func runC13(c *engine.Ctx) {
 			}
 			return false, false
 		}
+		// the join and the steps split out of it (methods of the same receiver)
+		fam := []*ssa.Function{f}
+		for _, g := range allAnon(f) {
+			if g.Parent() == nil && len(g.Params) > 0 && types.Identical(g.Params[0].Type(), recv.Type()) {
+				fam = append(fam, g)
+			}
+		}
+		hostOf := map[ssa.Instruction]*ssa.Function{}
+		isRecvFieldIn := func(g *ssa.Function, addr ssa.Value) *types.Var {
+			fv, base := engine.LoadedField(addr)
+			if fv != nil && base == ssa.Value(g.Params[0]) {
+				return fv
+			}
+			return nil
+		}
 		// identity fields: receiver fields of basic type stored from a parameter-derived value
-		engine.ForEachInstr(f, func(in ssa.Instruction) {
-			st, ok := in.(*ssa.Store)
-			if !ok {
-				return
-			}
-			fv := isRecvField(st.Addr)
-			if fv == nil {
-				return
-			}
-			// a basic field, or a small struct of basic fields that is recorded and compared as one value
-			if identityWidth(fv.Type()) == 0 {
-				return
-			}
-			src := engine.DeepSources(c.P, st.Val) // through a constructor of the identity value, if any
-			fromParam := false
-			for pr := range src.Params {
-				if pr != recv && pr.Parent() == f {
-					fromParam = true
+		for _, g := range fam {
+			g := g
+			engine.ForEachInstr(g, func(in ssa.Instruction) {
+				st, ok := in.(*ssa.Store)
+				if !ok {
+					return
 				}
-			}
-			// a value computed by a call is not a creation parameter (the acquired port), except a struct slot built by a
-			// constructor of this package from the parameters
-			pure := true
-			for ci := range src.CallIns {
-				if ci.Parent() == nil || ci.Parent().Pkg != f.Pkg {
-					continue // how a caller in another package computed its argument is not this group's business
+				fv := isRecvFieldIn(g, st.Addr)
+				if fv == nil {
+					return
 				}
-				callee := engine.CalleeObj(ci)
-				if !(callee != nil && src.Followed[callee] && callee.Pkg() == f.Pkg.Pkg && identityWidth(fv.Type()) > 1) {
-					pure = false
+				// a basic field, or a small struct of basic fields that is recorded and compared as one value
+				if identityWidth(fv.Type()) == 0 {
+					return
 				}
-			}
-			if fromParam && pure {
-				ji.identity[fv] = true
-			}
-		})
+				src := engine.DeepSources(c.P, st.Val) // through a constructor of the identity value, if any
+				fromParam := false
+				for pr := range src.Params {
+					if pr != g.Params[0] && pr.Parent() == g {
+						fromParam = true
+					}
+				}
+				// a value computed by a call is not a creation parameter (the acquired port), except a struct slot built by a
+				// constructor of this package from the parameters
+				pure := true
+				for ci := range src.CallIns {
+					if ci.Parent() == nil || ci.Parent().Pkg != f.Pkg {
+						continue // how a caller in another package computed its argument is not this group's business
+					}
+					callee := engine.CalleeObj(ci)
+					if !(callee != nil && src.Followed[callee] && callee.Pkg() == f.Pkg.Pkg && identityWidth(fv.Type()) > 1) {
+						pure = false
+					}
+				}
+				if fromParam && pure {
+					ji.identity[fv] = true
+				}
+			})
+		}
 		// member add: store to the members field (append) or MapUpdate on it
-		engine.ForEachInstr(f, func(in ssa.Instruction) {
-			switch x := in.(type) {
-			case *ssa.Store:
-				if fv := isRecvField(x.Addr); fv != nil && fv.Name() == sp.members {
-					ji.memberAdd = append(ji.memberAdd, in)
+		for _, g := range fam {
+			g := g
+			engine.ForEachInstr(g, func(in ssa.Instruction) {
+				switch x := in.(type) {
+				case *ssa.Store:
+					if fv := isRecvFieldIn(g, x.Addr); fv != nil && fv.Name() == sp.members {
+						ji.memberAdd = append(ji.memberAdd, in)
+						hostOf[in] = g
+					}
+				case *ssa.MapUpdate:
+					if lf, b := engine.LoadedField(x.Map); lf != nil && lf.Name() == sp.members && b == ssa.Value(g.Params[0]) {
+						ji.memberAdd = append(ji.memberAdd, in)
+						hostOf[in] = g
+					}
 				}
-			case *ssa.MapUpdate:
-				if lf, b := engine.LoadedField(x.Map); lf != nil && lf.Name() == sp.members && b == ssa.Value(recv) {
-					ji.memberAdd = append(ji.memberAdd, in)
-				}
-			}
-		})
+			})
+		}
+		_ = isRecvField
 		var idn []string
 		for fv := range ji.identity {
 			idn = append(idn, fv.Name())
@@ -151,8 +175,18 @@ func runC13(c *engine.Ctx) {
 			continue
 		}
 		for i, add := range ji.memberAdd {
-			c.AllPaths(fmt.Sprintf("%s>member-add#%d", sp.join, i+1), engine.PathCheck{Fn: f, Sink: engine.Is(add), Pred: func(st *engine.PathState) string {
+			host := hostOf[add]
+			// for a step split out of the join, whether the group is empty may have been decided by the caller
+			callerEmpty, callerKnown := false, false
+			if host != f {
+				callerEmpty, callerKnown = engine.CallerAgree(c.P, host, false, func(st *engine.PathState) (bool, bool) { return ji.lenLit(st) })
+			}
+			hrecv := host.Params[0]
+			c.AllPaths(fmt.Sprintf("%s>member-add#%d", sp.join, i+1), engine.PathCheck{Fn: host, Sink: engine.Is(add), Pred: func(st *engine.PathState) string {
 				empty, known := ji.lenLit(st)
+				if !known {
+					empty, known = callerEmpty, callerKnown
+				}
 				if !known {
 					return "a member is added without testing whether the group already has members"
 				}
@@ -192,11 +226,11 @@ func runC13(c *engine.Ctx) {
 											}
 										}
 									}
-									if pr, ok := root.(*ssa.Parameter); ok && pr != recv {
+									if pr, ok := root.(*ssa.Parameter); ok && pr != recv && pr != hrecv {
 										r2, p2 := engine.FieldPath(st.Resolve(pr))
 										root, path = r2, append(append([]*types.Var{}, p2...), path...)
 									}
-									return root == ssa.Value(recv) && len(path) == 2 && path[0] == fv && path[1] == sub
+									return (root == ssa.Value(recv) || root == ssa.Value(hrecv)) && len(path) == 2 && path[0] == fv && path[1] == sub
 								}, fromParam)
 								if !(k2 && e2) {
 									fieldwise = false
